@@ -59,6 +59,11 @@ func checkBudget(c *budgetCase, overCountKnown bool) (msg string, ops int) {
 		return "", -1 // too long for this check
 	}
 	ops = ref.ops
+	// The program ends within the guard budget, so it also ends without any
+	// budget (MaxOps = 0): that run is the reference proper.
+	if unl := runWith(c.Text, 0); errText(unl.err) != errText(ref.err) || unl.state != ref.state || unl.ops != ref.ops {
+		return fmt.Sprintf("with MaxOps = 0 the program ends with err %s and NumOps %d, with the ample budget %d with err %s and NumOps %d (state equal: %v)\nprogram: %s", errText(unl.err), unl.ops, guard, errText(ref.err), ref.ops, unl.state == ref.state, clip(c.Text)), ops
+	}
 	cuts := []int{}
 	if c.N > 0 {
 		cuts = []int{c.N}
@@ -115,14 +120,30 @@ func overCount(rec *ev.Rec) bool {
 func TestP1Budget(t *testing.T) {
 	rec := ev.New("C11", "budget")
 	defer rec.Finish(t)
-	rec.Rule("terminating deterministic programs (control-flow programs of the C03 generator and data programs of the C02 generator, with or without a final error) are run without budget -> (ops, state, error); then with MaxOps = N for every N in 1..ops+2 (all cut points when ops <= 400, 200 evenly spaced plus ops-1..ops+2 otherwise) on a fresh interpreter: N >= ops must reproduce state, error and NumOps exactly; N < ops must return ErrExecutionLimitExceeded (identity) with NumOps = N or N+1 (whether the refused operation is counted is not fixed; never past N+1, never short of N). Non-trivial: ops >= 10 and the program contains a loop or a procedure call; distinct by program text.")
+	rec.Rule("terminating deterministic programs (control-flow programs of the C03 generator, data programs of the C02 generator and eight resource-heavy programs - large array/string/dict allocations, long strings and procedure bodies, deep nesting, many dictionaries -, with or without a final error) are run without budget (MaxOps = 0, after a run with an ample guard budget showed that they end; both runs must agree) -> (ops, state, error); then with MaxOps = N for every N in 1..ops+2 (all cut points when ops <= 400, 200 evenly spaced plus ops-1..ops+2 otherwise) on a fresh interpreter: N >= ops must reproduce state, error and NumOps exactly; N < ops must return ErrExecutionLimitExceeded (identity) with NumOps = N or N+1 (whether the refused operation is counted is not fixed; never past N+1, never short of N). Non-trivial: ops >= 10 and the program contains a loop or a procedure call; distinct by program text.")
 	over := overCount(rec)
 	cfg := psgen.Config{TypeLiteral: true}
 	ev.SetupRapid(6000, 160000)
 	rapid.Check(t, func(t *rapid.T) {
 		var text string
 		var feat map[string]bool
-		if rapid.IntRange(0, 3).Draw(t, "kind") > 0 {
+		if k := rapid.IntRange(0, 19).Draw(t, "resourcekind"); k == 0 {
+			// programs whose cost in anything but operations is large: big
+			// allocations, long strings and procedures, deep nesting - the
+			// budget counts operations and nothing else
+			text = rapid.SampledFrom([]string{
+				"2000 array pop 65535 string pop 5000 dict pop 1 2 add",
+				"/a 65535 array def a 0 7 put a 65534 a put a length",
+				"0 1 20 { 1024 mul string length pop } for 3",
+				"[ 0 1 300 { } for ] length (" + strings.Repeat("x", 3000) + ") length add",
+				"{ " + strings.Repeat("1 pop ", 300) + "} exec { " + strings.Repeat("{ ", 40) + "7" + strings.Repeat(" } exec", 40) + " } exec",
+				"/s 40000 string def 0 1 99 { s exch 65 put } for s 0 100 getinterval length",
+				"10 { 4096 array 4096 string 4096 dict pop pop pop } repeat 9",
+				"1 1 15 { dict begin } for currentdict length 15 { end } repeat",
+			}).Draw(t, "resourceprogram")
+			feat = map[string]bool{"loop": true, "resource-heavy": true}
+			rec.Class("resource-heavy")
+		} else if rapid.IntRange(0, 3).Draw(t, "kind") > 0 {
 			toks, f := psgen.Control(t, 40)
 			text, feat = psgen.Spell(toks), f
 		} else {
